@@ -21,3 +21,7 @@ CHECKS["C19"] = ("property-based testing (rapid) with scripted io.Reader fault/c
   "Source lengths 0..600 (quick) / 0..5000 (thorough) x block sizes 8/16 x reader behaviours (1-byte, short non-EOF, zero-byte, data+EOF, mid-stream error) x caller buffer sizes x write-size sequences up to 8192 x every invalid final-block pattern; P7BlockEnc/Decrypt with SM4-CBC and DES-CBC. Exploration.",
   "Trusts ref/rsm4, crypto/des and crypto/cipher CBC. Infinite (0,nil) sources are outside the domain (io.Reader contract).",
   "DESIGN.md §5 C19")
+CHECKS["C03"] = ("property-based testing (rapid): differential against affine math/big group law, boundary-biased scalar/point/limb generators, white-box expression trees over the 9-limb field arithmetic, exhaustive scalar ranges",
+  "Black box: ScalarBaseMult/ScalarMult/Add/Double/IsOnCurve/GenerateKey vs ref/rsm2 over scalars of 0..40 bytes (0,1,2; n-16..n+16; 2^k; all-ones windows; c*n-2d families that make the wNAF accumulator meet +-digit*P; leading-zero padding; >32 bytes) and special point pairs; exhaustive scalar ranges around 0, n and 2n. White box (verif hook): random expression trees of Add/Sub/Mul/Square/Scalar on field elements whose Montgomery limbs sit at 0/1/max, Jacobian Add/Sub/Double/AddMixed with random Z, wNAF recoding. Exploration.",
+  "Trusts ref/rsm2 (validated on GM/T 0003.5 examples, n*G=infinity). White-box part depends on the guarded hook file sm2/export_verif.go (thin wrappers).",
+  "DESIGN.md §5 C03")
